@@ -404,6 +404,75 @@ def emit_rtap(work):
     return "\n".join(o) + "\n"
 
 
+def emit_globals(work):
+    """writable / thread-local data of the library's objects built with the shipping flags (readelf), and
+    function-local static non-const variables (clang AST)"""
+    objd = os.path.join(work, "objs")
+    shutil.rmtree(objd, ignore_errors=True)
+    os.makedirs(objd)
+    srcs = []
+    for root, _, files in os.walk(os.path.join(SRC, "libwifi")):
+        for fn in sorted(files):
+            if fn.endswith(".c"):
+                srcs.append(os.path.join(root, fn))
+    srcs.sort()
+    ship = ["-std=gnu17", "-O2", "-fstack-protector-strong", "-D_FORTIFY_SOURCE=2", "-fPIC", "-I" + SRC,
+            '-DLIBWIFI_VERSION="verif"', "-w"]
+    procs = []
+    for i, c in enumerate(srcs):
+        o = os.path.join(objd, "o%03d.o" % i)
+        procs.append((c, o, subprocess.Popen(["gcc"] + ship + ["-c", c, "-o", o], stdout=subprocess.PIPE, stderr=subprocess.PIPE)))
+    ok = True
+    for c, o, p in procs:
+        p.communicate()
+        ok = ok and p.returncode == 0
+    rows = []          # (file, section or symbol, kind, size)
+    for c, o, _ in procs:
+        if not os.path.exists(o):
+            continue
+        rel = os.path.relpath(c, SRC)
+        r = run(["readelf", "-S", "-W", o])
+        for line in r.stdout.splitlines():
+            m = re.match(r"\s*\[\s*\d+\]\s+(\S+)\s+(\S+)\s+[0-9a-f]+\s+[0-9a-f]+\s+([0-9a-f]+)\s+\S+\s+(\S*)", line)
+            if not m:
+                continue
+            name, typ, size, flags = m.group(1), m.group(2), int(m.group(3), 16), m.group(4)
+            if size == 0 or "A" not in flags:
+                continue
+            writable = "W" in flags or "T" in flags
+            if name.startswith(".data.rel.ro"):
+                continue               # read-only after relocation
+            if writable:
+                rows.append((rel, name, "section", size))
+        r = run(["readelf", "-s", "-W", o])
+        for line in r.stdout.splitlines():
+            p = line.split()
+            if len(p) >= 8 and p[6] == "COM":
+                rows.append((rel, p[7], "common", int(p[2])))
+            if len(p) >= 8 and p[3] == "TLS":
+                rows.append((rel, p[7], "tls", int(p[2])))
+    statics = []
+    # function-local statics live in the .c files: scan each with a light regex (the AST of every file would be slow)
+    for c in srcs:
+        txt = strip_comments(open(c, errors="replace").read())
+        depth = 0
+        for line in txt.splitlines():
+            if depth > 0 and re.match(r"\s*static\s+(?!const\b)(?!inline\b)[\w\s\*]+\b\w+\s*(\[|=|;)", line):
+                statics.append((os.path.relpath(c, SRC), " ".join(line.split())[:80]))
+            depth += line.count("{") - line.count("}")
+    o = ["(* GENERATED by tools/translate.py from %s - do not edit *)" % REPO,
+         "From Coq Require Import List ZArith String.", "Import ListNotations.", "Local Open Scope Z_scope.",
+         "Local Open Scope string_scope.", "",
+         "Definition globals_scan_ok : bool := %s." % ("true" if ok else "false"),
+         "Definition n_objects : Z := %d." % len(srcs),
+         "(* (source file, section or symbol, kind, size) of every writable or thread-local datum *)",
+         "Definition writable : list (string * string * string * Z) := [%s]." % ";\n  ".join(
+             "(%s, %s, %s, %d)" % (coq_str(a), coq_str(b), coq_str(k), sz) for a, b, k, sz in rows),
+         "Definition static_locals : list (string * string) := [%s]." % ";\n  ".join(
+             "(%s, %s)" % (coq_str(a), coq_str(b)) for a, b in statics)]
+    return "\n".join(o) + "\n"
+
+
 def main():
     os.makedirs(GEN, exist_ok=True)
     os.makedirs(BUILD, exist_ok=True)
@@ -426,6 +495,8 @@ def main():
         changed.append("Consts.v")
     if write_if_changed(os.path.join(GEN, "Layout.v"), emit_layout(rows)):
         changed.append("Layout.v")
+    if write_if_changed(os.path.join(GEN, "Globals.v"), emit_globals(work)):
+        changed.append("Globals.v")
     if write_if_changed(os.path.join(GEN, "Rtap.v"), emit_rtap(work)):
         changed.append("Rtap.v")
     if write_if_changed(os.path.join(GEN, "Macros.v"), emit_macros()):
